@@ -31,7 +31,7 @@ def run(tier):
     if rc != 0:
         raise C.ToolFailure("crc_probe build failed:\n" + out[-2000:])
     trace = os.path.join(sc, "crc.ndjson")
-    contents = [0, 3] + ([1, 2, 0] if thorough else [])
+    contents = [0, 3] + ([1, 2, 0, 0, 0, 0, 3, 0, 0] if thorough else [])
     with open(trace, "w") as f:
         for k, content in enumerate(contents):
             try:
